@@ -422,5 +422,152 @@ func runC10(ctx *core.Ctx, idx int) *core.Result {
 			res.Sample(map[string]any{"cell": c.String(), "patch": pt, "file": src, "expected_applies": exp})
 		}
 	}
+	if idx%3 == 0 && idx*c10Batch < c10Cells() {
+		c10FileSweep(ctx, idx, res, c10CellOf(idx*c10Batch))
+	}
+	if idx%40 == 1 {
+		c10GuardOrder(ctx, idx, res)
+	}
 	return res
+}
+
+// c10GuardOrder: two or three import guards for different paths, in every order of their forms (unnamed, literally named,
+// named by a metavariable) and of the paths, on files that satisfy all of them (must apply) or all but one (must not).
+func c10GuardOrder(ctx *core.Ctx, idx int, res *core.Result) {
+	r := ctx.Rand("c10order", idx)
+	paths := []string{"example.com/ga", "example.com/gb", "example.com/gc"}
+	n := 2 + r.Intn(2)
+	var guards, imports []string
+	var metas []string
+	broken := -1
+	if r.Intn(3) == 0 {
+		broken = r.Intn(n)
+	}
+	for i, pi := range r.Perm(len(paths))[:n] {
+		pth := paths[pi]
+		name := fmt.Sprintf("nm%d", i)
+		fileSpec := ""
+		switch r.Intn(3) {
+		case 0: // unnamed guard
+			guards = append(guards, fmt.Sprintf("import %q", pth))
+			fileSpec = fmt.Sprintf("%q", pth)
+			if i == broken {
+				fileSpec = fmt.Sprintf("%s %q", name, pth)
+			}
+		case 1: // literal name
+			guards = append(guards, fmt.Sprintf("import %s %q", name, pth))
+			fileSpec = fmt.Sprintf("%s %q", name, pth)
+			if i == broken {
+				fileSpec = fmt.Sprintf("%q", pth)
+			}
+		default: // metavariable name: any name or none
+			mv := fmt.Sprintf("mv%d", i)
+			metas = append(metas, mv)
+			guards = append(guards, fmt.Sprintf("import %s %q", mv, pth))
+			fileSpec = []string{fmt.Sprintf("%q", pth), fmt.Sprintf("%s %q", name, pth), fmt.Sprintf("other%d %q", i, pth)}[r.Intn(3)]
+			if i == broken {
+				fileSpec = "" // the path is not imported at all
+			}
+		}
+		if fileSpec != "" {
+			imports = append(imports, fileSpec)
+		}
+	}
+	pref := []string{" ", "-"}[r.Intn(2)]
+	var pt strings.Builder
+	pt.WriteString("@@\nvar x expression\n")
+	if len(metas) > 0 {
+		pt.WriteString("var " + strings.Join(metas, ", ") + " identifier\n")
+	}
+	pt.WriteString("@@\n")
+	for _, g := range guards {
+		pt.WriteString(pref + g + "\n")
+	}
+	pt.WriteString("\n-target(x)\n+repl(x)\n")
+	r.Shuffle(len(imports), func(i, j int) { imports[i], imports[j] = imports[j], imports[i] })
+	src := "package pk\n\nimport (\n\t\"os\"\n"
+	for _, im := range imports {
+		src += "\t" + im + "\n"
+	}
+	src += ")\n\nfunc f() {\n\tuse(os.Args)\n\ttarget(1)\n}\n"
+	runs := applyAPI(pt.String(), []string{src})
+	if cr, _ := applyCLI(ctx, pt.String(), []string{src}); len(cr) == 1 {
+		runs = append(runs, cr[0])
+	}
+	for _, run := range runs {
+		res.Evals++
+		res.Ob("guard-order-runs", 1)
+		rep := replayFiles(pt.String(), src, run.Out)
+		if run.Pan != "" {
+			res.Violate("C10/engine-panic:"+core.PanicSignature(run.Pan), run.Pan, rep)
+			return
+		}
+		if run.Err != "" {
+			res.Violate("C10/engine-error", "guard order: "+run.Err, rep)
+			return
+		}
+		applied := strings.Contains(run.Out, "repl(1)")
+		if applied != (broken < 0) || (broken >= 0 && run.Out != src) {
+			res.Violate("C10/guard-order", fmt.Sprintf("guards %q (guard %d does not hold: -1 = all hold): applied=%v", guards, broken, applied), rep)
+			return
+		}
+	}
+	res.Sig("guard-order", strings.Join(guards, ";"), broken)
+}
+
+// c10FileSweep: one parsed patch (one CLI run) over files of every import form, in a shuffled order. Whether the guards of
+// a change hold is a matter between the change and the file at hand: what an earlier file of the run imported, and
+// under which name, decides nothing for a later one. Every file must come out as its own cell of the table says.
+func c10FileSweep(ctx *core.Ctx, idx int, res *core.Result, c c10Cell) {
+	r := ctx.Rand("c10sweep", idx)
+	pt := c.patch()
+	var cells []c10Cell
+	var srcs []string
+	for _, j := range r.Perm(len(c10F)) {
+		d := c
+		d.f = j
+		cells = append(cells, d)
+		srcs = append(srcs, d.file())
+	}
+	runs := [][]engineRun{applyAPI(pt, srcs)}
+	names := []string{"api"}
+	if idx%12 == 0 {
+		cr, _ := applyCLI(ctx, pt, srcs)
+		if len(cr) == len(srcs) {
+			runs = append(runs, cr)
+			names = append(names, "cli")
+		}
+	}
+	for ri, rs := range runs {
+		for i, run := range rs {
+			d := cells[i]
+			res.Evals++
+			res.Ob("file-sweep-runs", 1)
+			exp := d.expected()
+			if c10G2[d.g2] == "second-holds" && c10F[d.f] == "no-imports" {
+				exp = false
+			}
+			rep := replayFiles(pt, srcs[i], run.Out)
+			for j := 0; j < i; j++ {
+				rep[fmt.Sprintf("earlier-%02d.go", j)] = srcs[j]
+			}
+			if run.Pan != "" {
+				res.Violate("C10/engine-panic:"+core.PanicSignature(run.Pan), d.String()+"\n"+run.Pan, rep)
+				return
+			}
+			if run.Err != "" {
+				if names[ri] == "cli" {
+					continue // one failing file fails the whole CLI run; the library run tells which
+				}
+				res.Violate("C10/engine-error", fmt.Sprintf("[%s, file %d of a sweep] %s: %s", names[ri], i, d, run.Err), rep)
+				return
+			}
+			applied := strings.Contains(run.Out, "repl(1)")
+			if exp != applied || (!exp && run.Out != srcs[i]) {
+				res.Violate("C10/guard-depends-on-earlier-files", fmt.Sprintf("[%s] file %d of a run over all file forms: %s (expected applies=%v, applied=%v)", names[ri], i, d, exp, applied), rep)
+				return
+			}
+		}
+	}
+	res.Sig("file-sweep", idx)
 }
